@@ -22,6 +22,8 @@ CONSTANTS Limit,     \* STREAM_ID_LIMIT
           Sym,       \* payload symbols
           MaxStreams, MaxOps, MaxWire, MaxDev,
           DataSeqs,    \* payloads a host write may carry
+          DevSeqs,     \* payloads a device WRTE may carry (sequences of symbols)
+          ReadLens,    \* lengths a host read may ask for (0 = whatever is there)
           IllegalCmds  \* packet types that are illegal mid-session
 
 VARIABLES wire,    \* device->host messages not yet consumed
@@ -95,10 +97,11 @@ Handle(S, h, m, wrteOk) ==
     [] m.cmd = "CLSE" -> [S |-> [S EXCEPT !.st[h].state = "closed"], err |-> ""]
     [] m.cmd = "WRTE" ->
          IF ~wrteOk THEN [S |-> S, err |-> "PROTO"]
-         ELSE [S |-> [S EXCEPT !.st[h].buf = Append(@, m.d)], err |-> ""]
+         ELSE [S |-> [S EXCEPT !.st[h].buf = @ \o m.d], err |-> ""]     \* m.d: sequence of symbols
 
-(* _read_messages_until_true; pred: "buf" (data buffered) or "acked" *)
-Pred(S, h, p) == IF p = "buf" THEN S.st[h].buf # <<>> ELSE ~S.st[h].exp
+(* _read_messages_until_true; pred p: 0 = the outstanding WRTE was acknowledged,
+   k >= 1 = at least k symbols are buffered *)
+Pred(S, h, p) == IF p = 0 THEN ~S.st[h].exp ELSE Len(S.st[h].buf) >= p
 RECURSIVE Until(_, _, _)
 Until(S, h, p) ==
   IF Pred(S, h, p) THEN [S |-> S, err |-> ""]
@@ -163,12 +166,16 @@ Open(reply) ==
 (* stream.read(): "each stream's reader obtains exactly the bytes the device
    wrote to that stream, in order"; "reads drain buffered data and then report
    the stream closed" *)
-Read(h) ==
+\* read(n): n = 0 returns everything buffered (at least one symbol), n > 0 exactly
+\* the first n symbols; what is left stays at the FRONT of the buffer
+Read(h, n) ==
   /\ nops < MaxOps /\ h \in 1..Len(st) /\ st[h].api
-  /\ LET u == Until(S0, h, "buf") IN
-     IF u.err # "" THEN Commit(u.S, <<"read", h>>, u.err) /\ UNCHANGED <<devw, hostr>>
-     ELSE LET data == u.S.st[h].buf IN
-          /\ Commit([u.S EXCEPT !.st[h].buf = <<>>], <<"read", h>>, <<"data", data>>)
+  /\ LET u == Until(S0, h, IF n = 0 THEN 1 ELSE n) IN
+     IF u.err # "" THEN Commit(u.S, <<"read", h, n>>, u.err) /\ UNCHANGED <<devw, hostr>>
+     ELSE LET buf == u.S.st[h].buf
+              k == IF n = 0 THEN Len(buf) ELSE n
+              data == SubSeq(buf, 1, k) IN
+          /\ Commit([u.S EXCEPT !.st[h].buf = SubSeq(buf, k + 1, Len(buf))], <<"read", h, n>>, <<"data", data>>)
           /\ hostr' = [hostr EXCEPT ![h] = @ \o data] /\ UNCHANGED devw
 
 (* stream.write(data): chunks of at most maxdata; each WRTE waits for its OKAY *)
@@ -182,7 +189,7 @@ WriteChunks(S, h, data, ack) ==
            S1 == [S EXCEPT !.st[h].exp = TRUE,
                            !.sent = Append(@, <<"WRTE", S.st[h].lid, S.st[h].rid, chunk>>),
                            !.wire = IF ack THEN Append(@, M("OKAY", S.st[h].rid, S.st[h].lid, "")) ELSE @]
-           u == Until(S1, h, "acked") IN
+           u == Until(S1, h, 0) IN
        IF u.err # "" THEN u ELSE WriteChunks(u.S, h, SubSeq(data, n + 1, Len(data)), ack)
 
 Write(h, data, ack) ==
@@ -208,21 +215,22 @@ DevSend(m, note) ==
 
 DevWrte(h, d) == /\ h \in 1..Len(st) /\ st[h].rid # 0 /\ Current(h)
                  /\ DevSend(M("WRTE", st[h].rid, st[h].lid, d), h)
-                 /\ devw' = [devw EXCEPT ![h] = Append(@, d)]
+                 /\ devw' = [devw EXCEPT ![h] = @ \o d]
 DevClse(h) == /\ h \in 1..Len(st) /\ st[h].rid # 0 /\ Current(h)
               /\ DevSend(M("CLSE", st[h].rid, st[h].lid, ""), h) /\ UNCHANGED devw
 DevOkay(h) == /\ h \in 1..Len(st) /\ st[h].rid # 0 /\ Current(h)      \* unsolicited OKAY
               /\ DevSend(M("OKAY", st[h].rid, st[h].lid, ""), h) /\ UNCHANGED devw
-DevUnknown == DevSend(M("WRTE", 999, Limit + 5, "a"), 0) /\ UNCHANGED devw
+DevUnknown == DevSend(M("WRTE", 999, Limit + 5, <<"a">>), 0) /\ UNCHANGED devw
 DevIllegal(c) == DevSend(M(c, 0, 0, ""), 0) /\ UNCHANGED devw
 
 Init == /\ wire = <<>> /\ st = <<>> /\ sent = <<>> /\ last = 0
         /\ devw = <<>> /\ hostr = <<>> /\ nops = 0 /\ hist = <<>>
 
 Next == \/ \E r \in {"OKAY", "CLSE", "none"} : Open(r)
-        \/ \E h \in 1..MaxStreams : Read(h) \/ Close(h)
+        \/ \E h \in 1..MaxStreams : Close(h)
+        \/ \E h \in 1..MaxStreams, n \in ReadLens : Read(h, n)
         \/ \E h \in 1..MaxStreams, d \in DataSeqs, a \in BOOLEAN : Write(h, d, a)
-        \/ \E h \in 1..MaxStreams, d \in Sym : DevWrte(h, d)
+        \/ \E h \in 1..MaxStreams, d \in DevSeqs : DevWrte(h, d)
         \/ \E h \in 1..MaxStreams : DevClse(h) \/ DevOkay(h)
         \/ DevUnknown
         \/ \E c \in IllegalCmds : DevIllegal(c)
